@@ -15,6 +15,14 @@ CHECKS = {
             'select/iter_select/Selector forms are compared with the documented projection. Held on the cases executed.',
             'Trusted: rv/models/xdm.py, libxml2 via lxml 6.1.3; absolute paths only on trees with a document node; namespace-node order unconstrained.',
             'DESIGN.md section 4 (C01)'),
+    'C09': ('exploration',
+            'differential runtime monitor: F&O reference string model + libxml2 (XPath 1.0) + engine-only laws on generated Unicode strings',
+            'Each generated call of the string functions named in the property (substring with .5/INF/NaN positions, translate, '
+            'normalize-space, case mapping, compare/codepoint-equal, codepoints functions, URI escaping, collation variants) is '
+            'compared with a direct transcription of the F&O definitions; XPath 1.0 calls are compared with libxml2 (only when '
+            'libxml2 and the XPath 1.0 model agree); round-trip and reconstruction laws are checked engine-against-engine.',
+            'Trusted: rv/models/strings.py, CPython str case mapping, libxml2; only codepoint and html-ascii collations can run (C locale only).',
+            'DESIGN.md section 4 (C09)'),
     'C13': ('exploration',
             'runtime shadow-model monitor over operation histories + exhaustive table comparison with unicodedata',
             'Every UnicodeSubset/CharacterClass state reached by random operation histories is compared, after every '
